@@ -116,12 +116,35 @@ def scan (name : Nat → List Char) (m : Mem) (pat : List Char) : List Nat :=
 def deleteMatch (name : Nat → List Char) (m : Mem) (pat : List Char) : Mem :=
   (scan name m pat).foldl (fun m k => (m.rawDelete k).1) m
 
-/-- `Memory.get_match`: `async for key in self.scan(pattern): value = await self.get(key); yield key, value`
-(the snapshot is taken first; each `get` moves its key to the end of the live store) -/
-def getMatch (name : Nat → List Char) (m : Mem) (pat : List Char) : Mem × List (Nat × Option Val) :=
+/-- `Memory.get_match` before the bit-field filter: `async for key in self.scan(pattern): value = await self.get(key)`
+— every scanned key with what `get` returned for it (the snapshot is taken first; each `get` moves its key to
+the end of the live store).  `some v` is a stored value — `some .nil` a stored Python `None` — and `none` the
+default `get` hands back for a key that is not there: the two are different results. -/
+def getMatchAll (name : Nat → List Char) (m : Mem) (pat : List Char) : Mem × List (Nat × Option Val) :=
   let ks := scan name m pat
   let r := m.getMany ks
   (r.1, ks.zip r.2)
+
+/-- `if not isinstance(value, Bitarray): yield key, value` — the one and only condition under which
+`get_match` leaves a scanned key out: its value is a bit-field object (`incr_bits` keeps a `Bitarray` in the
+same store; it is not a cached value).  `bits v` says whether the stored value `v` is such an object.
+Nothing else is dropped: not `None`, not `0`, `''`, `b''`, `[]`, `False` — no truthiness test, no `is None` test. -/
+def yielded (bits : Val → Bool) (kv : Nat × Option Val) : Bool :=
+  match kv.2 with
+  | some v => !bits v
+  | none => true
+
+/-- `Memory.get_match`:
+
+    async for key in self.scan(pattern):
+        value = await self.get(key)
+        if not isinstance(value, Bitarray):
+            yield key, value
+
+`bits` = which stored values are `Bitarray` objects (the theorems hold for every such classification). -/
+def getMatch (name : Nat → List Char) (bits : Val → Bool) (m : Mem) (pat : List Char) : Mem × List (Nat × Option Val) :=
+  let r := getMatchAll name m pat
+  (r.1, r.2.filter (yielded bits))
 
 /-- the keys a reader can see: entries whose deadline has not been reached, in store order -/
 def liveKeys (m : Mem) : List Nat := (m.store.filter fun ke => ke.2.live m.now).map (·.1)
@@ -160,10 +183,11 @@ def scan (name : Nat → List Char) (t : Tx) (pat : List Char) : List Nat :=
   let loc := Glob.scan name t.omem pat
   loc ++ (Glob.scan name t.bmem pat).filter fun k => !t.del.contains k && !loc.contains k
 
-/-- `TransactionBackend.get_match` (same merge, on (key, value) pairs) -/
-def getMatch (name : Nat → List Char) (t : Tx) (pat : List Char) : Tx × List (Nat × Option Val) :=
-  let o := Glob.getMatch name t.omem pat
-  let b := Glob.getMatch name t.bmem pat
+/-- `TransactionBackend.get_match` (same merge, on (key, value) pairs; both sides are `Memory.get_match`, so
+both leave bit-field objects out — `_local_state` only remembers the keys the overlay *yielded*) -/
+def getMatch (name : Nat → List Char) (bits : Val → Bool) (t : Tx) (pat : List Char) : Tx × List (Nat × Option Val) :=
+  let o := Glob.getMatch name bits t.omem pat
+  let b := Glob.getMatch name bits t.bmem pat
   let seen := o.2.map (·.1)
   ({ t with overlay := o.1.store, backend := b.1.store },
    o.2 ++ b.2.filter fun kv => !t.del.contains kv.1 && !seen.contains kv.1)
